@@ -414,6 +414,148 @@ def r4(ctx):
                   "update_subclass(target_cls) when missing, before parent._clslevel[target_cls]", fc.loc, w)
 
 
+# ---------------------------------------------------------------------- C28-R5
+# for_modify() hands out THE collection of (owner, event): what one caller adds to it, and the exec-once state
+# it keeps, must be what every other caller and the dispatch see.  Four of the five implementations return the
+# receiver.  _EmptyListener is a shared read-only placeholder: its for_modify() creates the real collection and
+# installs it on the owner -- a lazy initialisation that two threads can enter with the same placeholder in hand.
+COMPAT = "util/compat.py"
+_is_gil = lambda e: (dotted(e) or "").split(".")[-1] == "mini_gil"  # noqa: E731
+
+
+def _gil_region(pm, node):
+    for w in enclosing_withs(pm, node):
+        if any(_is_gil(i.context_expr) for i in w.items):
+            return w
+    return None
+
+
+@R.rule("C28-R5", floor=7, template="T-PATH",
+        desc="every for_modify() returns the collection that is installed on the owner: the receiver itself, or -- "
+             "for the _EmptyListener placeholder -- on every path the object it has just installed with "
+             "setattr(owner, name, .), the owner's current value, or a fresh one only for a _JoinedListener (which "
+             "keeps it as its .local); the install is a test-and-set inside one util.mini_gil region, and mini_gil "
+             "excludes other threads in every build")
+def r5(ctx):
+    m = ctx.index.module(ATTR)
+    pm = m.parents()
+    defs = sorted((f for f in ctx.index.all_functions(m) if f.name == "for_modify" and f.cls is not None),
+                  key=lambda f: f.node.lineno)
+    ctx.require(len(defs) >= 2, "for_modify() implementations not found in event/attr.py")
+    replacing = []
+    for f in defs:
+        ctx.functions_analysed.add(f.key)
+        rets = [r for r in walk_local(f.node) if isinstance(r, ast.Return)]
+        ctx.require(rets, f"{f.qualname} has no return")
+        if any(call_name(c) == "setattr" for c in calls_in(f.node)) or not all(dotted(r.value) == "self" for r in rets if r.value is not None):
+            replacing.append(f)
+            continue
+        # receiver-returning implementations; a nested upgrade (`x = x.for_modify(obj)`) must be kept where it came from
+        problems = []
+        for c in calls_in(f.node):
+            if isinstance(c.func, ast.Attribute) and c.func.attr == "for_modify":
+                recv = dotted(c.func.value)
+                st = pm.get(c)
+                kept = isinstance(st, ast.Assign) and st.value is c and any(dotted(t) == recv for t in st.targets)
+                same_owner = len(c.args) == 1 and dotted(c.args[0]) == f.params[1]
+                if not (kept and same_owner):
+                    problems.append(f"the collection returned by `{unparse(c)}` is not stored back into `{recv}`: "
+                                    "listeners would be added to a collection nobody dispatches")
+        ctx.check(not problems, f.key, "; ".join(problems), "returns the receiver", f.loc)
+    ctx.require(len(replacing) == 1, f"expected exactly one for_modify() that installs a new collection, found {[f.qualname for f in replacing]}")
+    f = replacing[0]
+    g = ctx.cfg(f)
+    owner = f.params[1]
+    is_slot_read = lambda e: isinstance(e, ast.Call) and call_name(e) == "getattr" and len(e.args) == 2 \
+        and dotted(e.args[0]) == owner and dotted(e.args[1]) == "self.name"  # noqa: E731
+    binds = {}
+    for nm, v, st in name_stores(f.node):
+        binds.setdefault(nm, []).append((v, st))
+    cur = {nm for nm, vs in binds.items() if all(v is not None and is_slot_read(v) for v, _ in vs)}
+
+    def is_fresh(e):
+        if isinstance(e, ast.Call) and isinstance(e.func, ast.Name):
+            r = ctx.index.resolve(m, e.func.id)
+            return hasattr(r, "methods") and ctx.index.resolve_method(r, "for_modify") is not None
+        return False
+    fresh = {nm for nm, vs in binds.items() if all(v is not None and is_fresh(v) for v, _ in vs)}
+    installs = []       # (cfg node, call)
+    for n in g.nodes:
+        for c in own_calls(n):
+            if call_name(c) == "setattr" and len(c.args) == 3 and dotted(c.args[0]) == owner and dotted(c.args[1]) == "self.name":
+                installs.append((n.id, c))
+    ctx.require(installs and fresh and (cur or any(is_slot_read(x) for x in ast.walk(f.node))),
+                f"{f.qualname}: lazy-install idiom not recognised (setattr({owner}, self.name, <new>) / getattr({owner}, self.name))")
+    cur_texts = set(cur) | {unparse(x) for x in ast.walk(f.node) if is_slot_read(x)}
+    # (a) what is returned is what is installed -- decided exactly, per truth assignment of the branch atoms
+    atoms = branch_atoms(g)
+    ctx.require(len(atoms) <= 8, f"{f.qualname}: too many branch conditions to enumerate ({len(atoms)})")
+    bad = None
+    for facts in assignments(atoms):
+        ok_edge = both(no_exc, consistent_ok(g, facts))
+        live = g.reachable([g.entry], edge_ok=ok_edge)
+        joined = any(facts.get(f"isinstance({c}, _JoinedListener)") for c in cur_texts)
+        for n in g.nodes:
+            if n.id not in live or n.kind != "stmt" or not isinstance(n.stmt, ast.Return) or n.stmt.value is None:
+                continue
+            v = n.stmt.value
+            d = dotted(v)
+            if d in cur or is_slot_read(v):
+                continue
+            if d == "self":
+                bad = bad or (facts, f"returns the shared read-only placeholder itself", g.describe_path(g.witness([g.entry], [n.id], edge_ok=ok_edge) or []))
+                continue
+            ctx.require(d in fresh or is_fresh(v), f"{f.qualname}: cannot tell what `return {unparse(v)}` returns")
+            inst = [i for i, c in installs if d is not None and dotted(c.args[2]) == d]
+            w = g.witness([g.entry], [n.id], avoid=inst, edge_ok=ok_edge)
+            if w is not None and not joined:
+                bad = bad or (facts, f"`return {unparse(v)}` hands out a new collection that was not installed on `{owner}`", g.describe_path(w))
+    ctx.check(bad is None, f.key + ":returns-installed-collection",
+              (f"when {describe_facts(bad[0])}: {bad[1]} (and the owner's attribute is not a _JoinedListener that would keep it): "
+               "the caller gets a detached collection with its own listeners, _exec_once flag and mutex -- a once-only "
+               "listener runs again for a second caller, a listener added through it is never dispatched") if bad else "",
+              "installed object / current value / fresh only for a _JoinedListener", f.loc, bad[2] if bad else None)
+    # (b) test-and-set inside one mini_gil region
+    problems = []
+    for n, c in installs:
+        st = g.nodes[n].stmt
+        region = _gil_region(pm, st)
+        if region is None:
+            problems.append(f"`{unparse(c)}` is outside `with util.mini_gil`")
+            continue
+        tested = False
+        for t, pol in g.edge_guards(n):
+            for a, p in guard_atoms([(t, pol)]):
+                for ctxt in cur_texts:
+                    if p and a in (f"{ctxt} is self", f"self is {ctxt}"):
+                        # where was the compared value read?
+                        if ctxt in cur:
+                            inside = all(_gil_region(pm, bst) is region for _, bst in binds[ctxt])
+                        else:
+                            inside = _gil_region(pm, t) is region
+                        tested = tested or inside
+                        if not inside:
+                            problems.append(
+                                f"`{unparse(c)}` is decided by `{a}`, but `{ctxt}` was read before util.mini_gil was taken: two threads "
+                                "that both read the placeholder each install their own collection, the first one (with the "
+                                "listeners / exec-once state its caller put there) is silently replaced")
+        if not tested and not problems:
+            problems.append(f"`{unparse(c)}` is not preceded by a test that the owner still holds the placeholder (`<current> is self`)")
+    ctx.check(not problems, f.key + ":test-and-set-under-lock", "; ".join(sorted(set(problems))),
+              "current value read, compared with self and replaced inside one mini_gil region", f.loc)
+    # (c) the region is exclusive in every build
+    cm = ctx.index.module(COMPAT)
+    vals = cm.assigns.get("mini_gil", [])
+    ctx.require(vals, "util/compat.py no longer defines mini_gil")
+    notlock = [unparse(v) for v in vals if not (isinstance(v, ast.Call) and (call_name(v) or "").split(".")[-1] in ("RLock", "Lock"))]
+    ctx.check(not notlock, f"{COMPAT}::mini_gil:excludes-other-threads-in-every-build",
+              f"util.mini_gil is `{', '.join(notlock)}` in some builds: the test-and-set sequences written under it "
+              "(_EmptyListener.for_modify, _CompoundListener._get_exec_once_mutex) span several bytecodes and calls, the "
+              "interpreter can switch threads between the test and the store, so two threads can each create their own "
+              "collection / exec-once mutex and run once-only listeners twice",
+              "a real lock in every build", f"{cm.path}:{getattr(vals[0], 'lineno', 0)}")
+
+
 # ---------------------------------------------------------------------- self-test battery
 R.mutant("exec-once-invoke-outside-mutex", ATTR,
          sub("        with self._get_exec_once_mutex():\n            if not self._exec_once:\n                try:\n                    self(*args, **kw)\n                    exception = False\n                except:\n                    exception = True\n                    raise\n                finally:\n                    if not exception or not retry_on_exception:\n                        self._exec_once = True\n",
